@@ -8,6 +8,7 @@ Local Open Scope nat_scope.
    hex letters and has exactly twice its length: wrong length, prefix or alphabet is rejected *)
 Theorem C20_hex_roundtrip : forall k b, byte_ok b -> length b = k -> unmarshal_hex k (hex_encode b) = Some b.
 Proof. exact unmarshal_hex_roundtrip. Qed.
+Print Assumptions C20_hex_roundtrip.
 Theorem C20_hex_exact : forall k s b, unmarshal_hex k s = Some b ->
   length b = k /\ length s = 2 * k /\ map lower s = hex_encode b.
 Proof. exact unmarshal_hex_exact. Qed.
@@ -16,8 +17,10 @@ Print Assumptions C20_hex_exact.
 (* checksummed addresses *)
 Theorem C20_address_roundtrip : forall H a, H_ok H -> byte_ok a -> length a = 32 -> addr_parse H (addr_render H a) = Some a.
 Proof. exact addr_roundtrip. Qed.
+Print Assumptions C20_address_roundtrip.
 Theorem C20_address_canonical : forall H s a, addr_parse H s = Some a -> map lower s = addr_render H a /\ length a = 32.
 Proof. exact addr_parse_canonical. Qed.
+Print Assumptions C20_address_canonical.
 (* replacing any one character of an address string: rejected, or the same address (only the case of a hex letter
    changed), or two different addresses with the same 6-byte checksum are exhibited *)
 Theorem C20_address_single_char : forall H a i c a', H_ok H -> byte_ok a -> length a = 32 ->
@@ -33,6 +36,7 @@ Print Assumptions C20_address_altered.
 (* currencies: both text forms parse back to the same value, for every value of the type *)
 Theorem C20_currency_string_roundtrip : forall c, (c <= MAXCUR)%N -> cur_parse (cur_render c) = POk c.
 Proof. exact cur_roundtrip. Qed.
+Print Assumptions C20_currency_string_roundtrip.
 Theorem C20_currency_exact_roundtrip : forall c, (c <= MAXCUR)%N -> cur_parse (digits c) = POk c.
 Proof. exact exact_roundtrip. Qed.
 Print Assumptions C20_currency_exact_roundtrip.
